@@ -305,3 +305,239 @@ Theorem total_derivative_instantiated_on_sin_then_scale :
       (elt gx [0%nat] * dl [0%nat] + elt gx [1%nat] * dl [1%nat]).
 Proof. exact @TotalDerivP.TotalDerivExample.ex_total_derivative. Qed.
 Print Assumptions total_derivative_instantiated_on_sin_then_scale.
+
+(* ---- Appendix added in the second build session: the chain-rule step at nodes with SEVERAL back edges (Proofs/TotalDeriv2P.v): affine in all operands (Add, Sub, Concat, Patch), element-wise binary (product, quotient), finite sums of products (MatMul, Dot); chain_hyp for a whole graph from a per-node case analysis; instances where the gradient IS the derivative: the diamond x; m = 2x; y = m + m the pinned library got wrong (4, not 6), x*x, c/x, x.MatMul(x^T) ---- *)
+From Qeep Require Proofs.TotalDeriv2P.
+Theorem chain_rule_at_affine_nodes_with_several_operands :
+  forall (h : @heap R) (D : nat -> nat * @rule R -> list nat -> list nat -> R)
+    (val : R -> nat -> assignment) (dm : nat -> assignment) (n : nat) (k : assignment),
+  (forall (t : R) (j : list nat),
+   NdP.validIdx (TotalDerivP.dimsOf h n) j ->
+   val t n j =
+   @VjpGatherP.lsum (nat * @rule R) (@edgesOf R h n)
+     (fun e : nat * @rule R =>
+      if @trackedOf R h (@fst nat (@rule R) e)
+      then
+       sumIdx (TotalDerivP.dimsOf h (@fst nat (@rule R) e))
+         (fun i : list nat => D n e i j * val t (@fst nat (@rule R) e) i)
+      else 0) + k j) ->
+  TotalDeriv2P.ops_diff h val dm n ->
+  forall j : list nat,
+  NdP.validIdx (TotalDerivP.dimsOf h n) j ->
+  @Derive.is_derive Hierarchy.R_AbsRing Hierarchy.R_NormedModule
+    (fun t : Hierarchy.AbsRing.sort Hierarchy.R_AbsRing => val t n j) 0 (TotalDerivP.Jt h D dm n j).
+Proof. exact @TotalDeriv2P.chain_node_linear_multi. Qed.
+Print Assumptions chain_rule_at_affine_nodes_with_several_operands.
+
+Theorem chain_rule_at_elementwise_binary_nodes :
+  forall (h : @heap R) (D : nat -> nat * @rule R -> list nat -> list nat -> R)
+    (val : R -> nat -> assignment) (dm : nat -> assignment) (n : nat) (e1 e2 : nat * @rule R)
+    (f : R -> R -> R) (d1 d2 : assignment),
+  @edgesOf R h n = [e1; e2] ->
+  TotalDerivP.dimsOf h (@fst nat (@rule R) e1) = TotalDerivP.dimsOf h n ->
+  TotalDerivP.dimsOf h (@fst nat (@rule R) e2) = TotalDerivP.dimsOf h n ->
+  (forall i j : list nat, D n e1 i j = (if idx_eqb i j then d1 j else 0)) ->
+  (forall i j : list nat, D n e2 i j = (if idx_eqb i j then d2 j else 0)) ->
+  (forall (t : R) (j : list nat),
+   NdP.validIdx (TotalDerivP.dimsOf h n) j ->
+   val t n j = f (val t (@fst nat (@rule R) e1) j) (val t (@fst nat (@rule R) e2) j)) ->
+  (forall j : list nat,
+   NdP.validIdx (TotalDerivP.dimsOf h n) j ->
+   TotalDeriv2P.curve_diff2 f (val 0 (@fst nat (@rule R) e1) j) (val 0 (@fst nat (@rule R) e2) j) 
+     (d1 j) (d2 j)) ->
+  (@trackedOf R h (@fst nat (@rule R) e1) = false -> TotalDeriv2P.frozen h val (@fst nat (@rule R) e1)) ->
+  (@trackedOf R h (@fst nat (@rule R) e2) = false -> TotalDeriv2P.frozen h val (@fst nat (@rule R) e2)) ->
+  TotalDeriv2P.ops_diff h val dm n ->
+  forall j : list nat,
+  NdP.validIdx (TotalDerivP.dimsOf h n) j ->
+  @Derive.is_derive Hierarchy.R_AbsRing Hierarchy.R_NormedModule
+    (fun t : Hierarchy.AbsRing.sort Hierarchy.R_AbsRing => val t n j) 0 (TotalDerivP.Jt h D dm n j).
+Proof. exact @TotalDeriv2P.chain_node_pointwise2. Qed.
+Print Assumptions chain_rule_at_elementwise_binary_nodes.
+
+Theorem chain_rule_at_product_nodes :
+  forall (h : @heap R) (D : nat -> nat * @rule R -> list nat -> list nat -> R)
+    (val : R -> nat -> assignment) (dm : nat -> assignment) (n : nat) (e1 e2 : nat * @rule R),
+  @edgesOf R h n = [e1; e2] ->
+  TotalDerivP.dimsOf h (@fst nat (@rule R) e1) = TotalDerivP.dimsOf h n ->
+  TotalDerivP.dimsOf h (@fst nat (@rule R) e2) = TotalDerivP.dimsOf h n ->
+  (forall i j : list nat, D n e1 i j = (if idx_eqb i j then val 0 (@fst nat (@rule R) e2) j else 0)) ->
+  (forall i j : list nat, D n e2 i j = (if idx_eqb i j then val 0 (@fst nat (@rule R) e1) j else 0)) ->
+  (forall (t : R) (j : list nat),
+   NdP.validIdx (TotalDerivP.dimsOf h n) j ->
+   val t n j = val t (@fst nat (@rule R) e1) j * val t (@fst nat (@rule R) e2) j) ->
+  (@trackedOf R h (@fst nat (@rule R) e1) = false -> TotalDeriv2P.frozen h val (@fst nat (@rule R) e1)) ->
+  (@trackedOf R h (@fst nat (@rule R) e2) = false -> TotalDeriv2P.frozen h val (@fst nat (@rule R) e2)) ->
+  TotalDeriv2P.ops_diff h val dm n ->
+  forall j : list nat,
+  NdP.validIdx (TotalDerivP.dimsOf h n) j ->
+  @Derive.is_derive Hierarchy.R_AbsRing Hierarchy.R_NormedModule
+    (fun t : Hierarchy.AbsRing.sort Hierarchy.R_AbsRing => val t n j) 0 (TotalDerivP.Jt h D dm n j).
+Proof. exact @TotalDeriv2P.chain_node_mul. Qed.
+Print Assumptions chain_rule_at_product_nodes.
+
+Theorem chain_rule_at_quotient_nodes :
+  forall (h : @heap R) (D : nat -> nat * @rule R -> list nat -> list nat -> R)
+    (val : R -> nat -> assignment) (dm : nat -> assignment) (n : nat) (e1 e2 : nat * @rule R),
+  @edgesOf R h n = [e1; e2] ->
+  TotalDerivP.dimsOf h (@fst nat (@rule R) e1) = TotalDerivP.dimsOf h n ->
+  TotalDerivP.dimsOf h (@fst nat (@rule R) e2) = TotalDerivP.dimsOf h n ->
+  (forall i j : list nat, D n e1 i j = (if idx_eqb i j then / val 0 (@fst nat (@rule R) e2) j else 0)) ->
+  (forall i j : list nat,
+   D n e2 i j =
+   (if idx_eqb i j then - val 0 (@fst nat (@rule R) e1) j / val 0 (@fst nat (@rule R) e2) j ^ 2 else 0)) ->
+  (forall (t : R) (j : list nat),
+   NdP.validIdx (TotalDerivP.dimsOf h n) j ->
+   val t n j = val t (@fst nat (@rule R) e1) j / val t (@fst nat (@rule R) e2) j) ->
+  (forall j : list nat, NdP.validIdx (TotalDerivP.dimsOf h n) j -> val 0 (@fst nat (@rule R) e2) j <> 0) ->
+  (@trackedOf R h (@fst nat (@rule R) e1) = false -> TotalDeriv2P.frozen h val (@fst nat (@rule R) e1)) ->
+  (@trackedOf R h (@fst nat (@rule R) e2) = false -> TotalDeriv2P.frozen h val (@fst nat (@rule R) e2)) ->
+  TotalDeriv2P.ops_diff h val dm n ->
+  forall j : list nat,
+  NdP.validIdx (TotalDerivP.dimsOf h n) j ->
+  @Derive.is_derive Hierarchy.R_AbsRing Hierarchy.R_NormedModule
+    (fun t : Hierarchy.AbsRing.sort Hierarchy.R_AbsRing => val t n j) 0 (TotalDerivP.Jt h D dm n j).
+Proof. exact @TotalDeriv2P.chain_node_div. Qed.
+Print Assumptions chain_rule_at_quotient_nodes.
+
+Theorem chain_rule_at_bilinear_nodes :
+  forall (h : @heap R) (D : nat -> nat * @rule R -> list nat -> list nat -> R)
+    (val : R -> nat -> assignment) (dm : nat -> assignment) (n : nat) (e1 e2 : nat * @rule R) 
+    (K : nat) (al be : list nat -> nat -> list nat),
+  @edgesOf R h n = [e1; e2] ->
+  (forall (j : list nat) (k : nat),
+   NdP.validIdx (TotalDerivP.dimsOf h n) j ->
+   (k < K)%nat -> NdP.validIdx (TotalDerivP.dimsOf h (@fst nat (@rule R) e1)) (al j k)) ->
+  (forall (j : list nat) (k : nat),
+   NdP.validIdx (TotalDerivP.dimsOf h n) j ->
+   (k < K)%nat -> NdP.validIdx (TotalDerivP.dimsOf h (@fst nat (@rule R) e2)) (be j k)) ->
+  (forall i j : list nat,
+   NdP.validIdx (TotalDerivP.dimsOf h (@fst nat (@rule R) e1)) i ->
+   NdP.validIdx (TotalDerivP.dimsOf h n) j ->
+   D n e1 i j =
+   VjpGatherP.sumN K
+     (fun k : nat => if idx_eqb i (al j k) then val 0 (@fst nat (@rule R) e2) (be j k) else 0)) ->
+  (forall i j : list nat,
+   NdP.validIdx (TotalDerivP.dimsOf h (@fst nat (@rule R) e2)) i ->
+   NdP.validIdx (TotalDerivP.dimsOf h n) j ->
+   D n e2 i j =
+   VjpGatherP.sumN K
+     (fun k : nat => if idx_eqb i (be j k) then val 0 (@fst nat (@rule R) e1) (al j k) else 0)) ->
+  (forall (t : R) (j : list nat),
+   NdP.validIdx (TotalDerivP.dimsOf h n) j ->
+   val t n j =
+   VjpGatherP.sumN K
+     (fun k : nat => val t (@fst nat (@rule R) e1) (al j k) * val t (@fst nat (@rule R) e2) (be j k))) ->
+  (@trackedOf R h (@fst nat (@rule R) e1) = false -> TotalDeriv2P.frozen h val (@fst nat (@rule R) e1)) ->
+  (@trackedOf R h (@fst nat (@rule R) e2) = false -> TotalDeriv2P.frozen h val (@fst nat (@rule R) e2)) ->
+  TotalDeriv2P.ops_diff h val dm n ->
+  forall j : list nat,
+  NdP.validIdx (TotalDerivP.dimsOf h n) j ->
+  @Derive.is_derive Hierarchy.R_AbsRing Hierarchy.R_NormedModule
+    (fun t : Hierarchy.AbsRing.sort Hierarchy.R_AbsRing => val t n j) 0 (TotalDerivP.Jt h D dm n j).
+Proof. exact @TotalDeriv2P.chain_node_bilinear. Qed.
+Print Assumptions chain_rule_at_bilinear_nodes.
+
+Theorem chain_rule_at_matrix_product_nodes :
+  forall (h : @heap R) (D : nat -> nat * @rule R -> list nat -> list nat -> R)
+    (val : R -> nat -> assignment) (dm : nat -> assignment) (n : nat) (e1 e2 : nat * @rule R)
+    (m q p : nat),
+  @edgesOf R h n = [e1; e2] ->
+  TotalDerivP.dimsOf h (@fst nat (@rule R) e1) = [m; q] ->
+  TotalDerivP.dimsOf h (@fst nat (@rule R) e2) = [q; p] ->
+  TotalDerivP.dimsOf h n = [m; p] ->
+  (forall r k r' c : nat,
+   D n e1 [r; k] [r'; c] = (if r =? r' then val 0 (@fst nat (@rule R) e2) [k; c] else 0)) ->
+  (forall k c r c' : nat,
+   D n e2 [k; c] [r; c'] = (if c =? c' then val 0 (@fst nat (@rule R) e1) [r; k] else 0)) ->
+  (forall (t : R) (r c : nat),
+   (r < m)%nat ->
+   (c < p)%nat ->
+   val t n [r; c] =
+   VjpGatherP.sumN q
+     (fun k : nat => val t (@fst nat (@rule R) e1) [r; k] * val t (@fst nat (@rule R) e2) [k; c])) ->
+  (@trackedOf R h (@fst nat (@rule R) e1) = false -> TotalDeriv2P.frozen h val (@fst nat (@rule R) e1)) ->
+  (@trackedOf R h (@fst nat (@rule R) e2) = false -> TotalDeriv2P.frozen h val (@fst nat (@rule R) e2)) ->
+  TotalDeriv2P.ops_diff h val dm n ->
+  forall j : list nat,
+  NdP.validIdx (TotalDerivP.dimsOf h n) j ->
+  @Derive.is_derive Hierarchy.R_AbsRing Hierarchy.R_NormedModule
+    (fun t : Hierarchy.AbsRing.sort Hierarchy.R_AbsRing => val t n j) 0 (TotalDerivP.Jt h D dm n j).
+Proof. exact @TotalDeriv2P.chain_node_matmul2. Qed.
+Print Assumptions chain_rule_at_matrix_product_nodes.
+
+Theorem chain_rule_for_a_graph_from_its_nodes :
+  forall (h : @heap R) (D : nat -> nat * @rule R -> list nat -> list nat -> R)
+    (val : R -> nat -> assignment) (root x : nat) (dl : assignment),
+  (forall n : nat, @In nat n (@topoOrder R h root) -> (x < n)%nat -> TotalDeriv2P.node_ok h D val n) ->
+  TotalDerivP.chain_hyp h root D x dl val.
+Proof. exact @TotalDeriv2P.chain_hyp_of_nodes. Qed.
+Print Assumptions chain_rule_for_a_graph_from_its_nodes.
+
+Theorem total_derivative_on_the_diamond :
+  forall (thr : R) (draw : bool -> nat -> R) (rd : bred) (x0 x1 : R),
+  exists (h' : @heap R) (lg : list (nat * tensor R)) (gx : tensor R),
+    @bp_topo R (R_scalar thr draw) rd TotalDeriv2P.TotalDeriv2Example.ids
+      (TotalDeriv2P.TotalDeriv2Example.hD x0 x1) 4 = (h', lg, @Ok unit tt) /\
+    @gradOf R h' 0 = @Some (tensor R) gx /\
+    elt gx [0%nat] = 4 /\
+    elt gx [1%nat] = 4 /\
+    (forall dl : assignment,
+     @Derive.is_derive Hierarchy.R_AbsRing Hierarchy.R_NormedModule
+       (fun t : Hierarchy.AbsRing.sort Hierarchy.R_AbsRing =>
+        2 * (x0 + t * dl [0%nat]) + 2 * (x0 + t * dl [0%nat]) +
+        (2 * (x1 + t * dl [1%nat]) + 2 * (x1 + t * dl [1%nat]))) 0
+       (elt gx [0%nat] * dl [0%nat] + elt gx [1%nat] * dl [1%nat])).
+Proof. exact @TotalDeriv2P.TotalDeriv2Example.diamond_gradient. Qed.
+Print Assumptions total_derivative_on_the_diamond.
+
+Theorem total_derivative_of_the_square :
+  forall (thr : R) (draw : bool -> nat -> R) (rd : bred) (x0 x1 : R),
+  exists (h' : @heap R) (lg : list (nat * tensor R)) (gx : tensor R),
+    @bp_topo R (R_scalar thr draw) rd TotalDeriv2P.TotalDeriv2Example.ids
+      (TotalDeriv2P.TotalDeriv2Example.hM x0 x1) 3 = (h', lg, @Ok unit tt) /\
+    @gradOf R h' 0 = @Some (tensor R) gx /\
+    elt gx [0%nat] = 2 * x0 /\
+    elt gx [1%nat] = 2 * x1 /\
+    (forall dl : assignment,
+     @Derive.is_derive Hierarchy.R_AbsRing Hierarchy.R_NormedModule
+       (fun t : Hierarchy.AbsRing.sort Hierarchy.R_AbsRing =>
+        (x0 + t * dl [0%nat]) * (x0 + t * dl [0%nat]) + (x1 + t * dl [1%nat]) * (x1 + t * dl [1%nat])) 0
+       (elt gx [0%nat] * dl [0%nat] + elt gx [1%nat] * dl [1%nat])).
+Proof. exact @TotalDeriv2P.TotalDeriv2Example.square_gradient. Qed.
+Print Assumptions total_derivative_of_the_square.
+
+Theorem total_derivative_of_a_quotient :
+  forall (thr : R) (draw : bool -> nat -> R) (rd : bred) (x0 x1 c0 c1 : R),
+  x0 <> 0 ->
+  x1 <> 0 ->
+  exists (h' : @heap R) (lg : list (nat * tensor R)) (gx : tensor R),
+    @bp_topo R (R_scalar thr draw) rd TotalDeriv2P.TotalDeriv2Example.ids
+      (TotalDeriv2P.TotalDeriv2Example.hQ x0 x1 c0 c1) 4 = (h', lg, @Ok unit tt) /\
+    @gradOf R h' 0 = @Some (tensor R) gx /\
+    elt gx [0%nat] = - c0 / x0 ^ 2 /\
+    elt gx [1%nat] = - c1 / x1 ^ 2 /\
+    (forall dl : assignment,
+     @Derive.is_derive Hierarchy.R_AbsRing Hierarchy.R_NormedModule
+       (fun t : Hierarchy.AbsRing.sort Hierarchy.R_AbsRing =>
+        c0 / (x0 + t * dl [0%nat]) + c1 / (x1 + t * dl [1%nat])) 0
+       (elt gx [0%nat] * dl [0%nat] + elt gx [1%nat] * dl [1%nat])).
+Proof. exact @TotalDeriv2P.TotalDeriv2Example.quot_gradient. Qed.
+Print Assumptions total_derivative_of_a_quotient.
+
+Theorem total_derivative_of_the_gram_product :
+  forall (thr : R) (draw : bool -> nat -> R) (rd : bred) (x0 x1 : R),
+  exists (h' : @heap R) (lg : list (nat * tensor R)) (gx : tensor R),
+    @bp_topo R (R_scalar thr draw) rd TotalDeriv2P.TotalDeriv2Example.ids
+      (TotalDeriv2P.TotalDeriv2Example.hT x0 x1) 4 = (h', lg, @Ok unit tt) /\
+    @gradOf R h' 0 = @Some (tensor R) gx /\
+    elt gx [0%nat; 0%nat] = 2 * x0 /\
+    elt gx [0%nat; 1%nat] = 2 * x1 /\
+    (forall dl : assignment,
+     @Derive.is_derive Hierarchy.R_AbsRing Hierarchy.R_NormedModule
+       (fun t : Hierarchy.AbsRing.sort Hierarchy.R_AbsRing =>
+        (x0 + t * dl [0%nat; 0%nat]) * (x0 + t * dl [0%nat; 0%nat]) +
+        (x1 + t * dl [0%nat; 1%nat]) * (x1 + t * dl [0%nat; 1%nat])) 0
+       (elt gx [0%nat; 0%nat] * dl [0%nat; 0%nat] + elt gx [0%nat; 1%nat] * dl [0%nat; 1%nat])).
+Proof. exact @TotalDeriv2P.TotalDeriv2Example.gram_gradient. Qed.
+Print Assumptions total_derivative_of_the_gram_product.
